@@ -868,7 +868,14 @@ macro_rules! ux_struct {
         $name:ident, $owned:ident, $init:ident,
         fields { $f0:ident : $t0:ty $(, $f:ident : $t:ty)* }
     ) => {
-        #[unsized_type(skip_idl)]
+        $crate::ux_struct!($name, $owned, $init, args [], fields { $f0 : $t0 $(, $f : $t)* });
+    };
+    // ---- no sized part, extra `#[unsized_type(...)]` arguments (program accounts)
+    (
+        $name:ident, $owned:ident, $init:ident, args [$($arg:tt)*],
+        fields { $f0:ident : $t0:ty $(, $f:ident : $t:ty)* }
+    ) => {
+        #[unsized_type(skip_idl $($arg)*)]
         pub struct $name {
             #[unsized_start]
             pub $f0: $t0,
@@ -1143,6 +1150,68 @@ macro_rules! ux_enum {
                 }
             }
             return <$p as $crate::ux::WithInit>::with_init($a, KV($k));
+        }
+    };
+}
+
+/// A GENERIC `#[unsized_type]` struct with one type parameter `A` (a fixed type used in the sized
+/// part and as the list element) and one unsized field `items: List<A, u8>`. For generic structs the
+/// macro writes the `CheckedBitPattern` impl of the `…Sized` part itself; `args` selects
+/// `skip_phantom_generics` (no leading `PhantomData` marker in the sized struct) or not.
+#[macro_export]
+macro_rules! ux_generic_struct {
+    ($name:ident, $owned:ident, $sized:ident, args [$($arg:tt)*], sized { $($sf:ident : $st:ty),+ }) => {
+        #[unsized_type(skip_idl $($arg)*)]
+        pub struct $name<A: star_frame::unsize::impls::UnsizedGenerics> {
+            $(pub $sf: $st,)+
+            #[unsized_start]
+            pub items: List<A, u8>,
+        }
+        impl<A: $crate::ux::Fx + star_frame::unsize::impls::UnsizedGenerics> $crate::ux::WithInit for $name<A>
+        where
+            $sized<A>: UnsizedInit<DefaultInit>,
+        {
+            fn with_init<K: $crate::ux::InitK<Self>>(a: &$crate::sx::Init, k: K) -> Option<K::Out> {
+                match a {
+                    $crate::sx::Init::Default => Some(k.go(DefaultInit)),
+                    _ => None,
+                }
+            }
+        }
+        impl<A: $crate::ux::Fx + star_frame::unsize::impls::UnsizedGenerics> $crate::ux::Ux for $name<A>
+        where
+            $sized<A>: UnsizedInit<DefaultInit>,
+        {
+            fn shape() -> $crate::sx::Shape {
+                $crate::sx::Shape::Struct(vec![$(<$st as $crate::ux::Fx>::fshape()),+], vec![<List<A, u8> as $crate::ux::Ux>::shape()])
+            }
+            fn to_val(o: &$owned<A>) -> $crate::sx::Val {
+                let mut sz = vec![];
+                $(sz.extend($crate::ux::Fx::to_b(&{ o.$sf }));)+
+                $crate::sx::Val::Record(sz, vec![<List<A, u8> as $crate::ux::Ux>::to_val(&o.items)])
+            }
+            fn from_val(v: &$crate::sx::Val) -> Option<$owned<A>> {
+                let $crate::sx::Val::Record(sz, vs) = v else { return None };
+                if vs.len() != 1 { return None; }
+                let parts = $crate::ux::split_sized(sz, &[$(std::mem::size_of::<$st>()),+])?;
+                let mut pi = parts.iter();
+                Some($owned {
+                    $($sf: <$st as $crate::ux::Fx>::from_b(pi.next()?)?,)+
+                    items: <List<A, u8> as $crate::ux::Ux>::from_val(&vs[0])?,
+                })
+            }
+            fn view(m: $crate::ux::Mode, p: &$name<A>) -> $crate::ux::R<$crate::sx::Val> {
+                let sz: &$sized<A> = p;
+                $crate::ux::touch(sz);
+                Ok($crate::sx::Val::Record(bytemuck::bytes_of(sz).to_vec(), vec![<List<A, u8> as $crate::ux::Ux>::view(m, &p.items)?]))
+            }
+            fn view_mut(p: &mut $name<A>) -> $crate::ux::R<$crate::sx::Val> {
+                let szb = {
+                    let sz: &mut $sized<A> = p;
+                    bytemuck::bytes_of(sz).to_vec()
+                };
+                Ok($crate::sx::Val::Record(szb, vec![<List<A, u8> as $crate::ux::Ux>::view_mut(&mut p.items)?]))
+            }
         }
     };
 }
